@@ -1,16 +1,18 @@
 #!/bin/bash
 # tools/try_seed.sh <Cxx> <patch>… : run a check against a scratch worktree with the patch applied.
-# Touches neither /repo nor /verif/lean: the worktree is /tmp/wt_mut, the Lean project a copy in /tmp/lean_mut
-# (so that concurrent development in /verif/lean is not disturbed by files regenerated from the mutated source).
+# Touches neither /repo nor /verif/lean: the worktree is /tmp/wt_mut_<Cxx>, the Lean project a copy in /tmp/lean_mut_<Cxx>
+# (per property, so that concurrent users do not revert each other's patches), evidence goes to /tmp/try_seed_ev_<Cxx>.
 prop=$1; shift
-wt=${TRY_WT:-/tmp/wt_mut}
-lean=${TRY_LEAN:-/tmp/lean_mut}
-[ -d $wt ] || git -C /repo worktree add --detach $wt HEAD >/dev/null
+wt=${TRY_WT:-/tmp/wt_mut_$prop}
+lean=${TRY_LEAN:-/tmp/lean_mut_$prop}
+[ -d $wt ] || git -C /repo worktree add --detach $wt HEAD >/dev/null 2>&1
 git -C $wt checkout -q -- . ; git -C $wt checkout -q --detach $(git -C /repo rev-parse HEAD)
 rsync -a --delete /verif/lean/ $lean/
+mkdir -p /tmp/try_seed_ev_$prop
 for p in "$@"; do
   git -C $wt apply $p || { echo "$p: does not apply"; continue; }
-  (cd /verif && VERIF_REPO=$wt VERIF_LEAN=$lean VERIF_EVIDENCE_DIR=/tmp/try_seed_ev python3 check.py $prop ${TRY_ARGS} > /tmp/try_seed_out_$prop.txt 2>&1); rc=$?
-  echo "== $p exit=$rc"; grep -E "^VIOLATION|^violation|^KNOWN" /tmp/try_seed_out_$prop.txt | cut -c1-240 | head -5
+  (cd /verif && VERIF_REPO=$wt VERIF_LEAN=$lean VERIF_EVIDENCE_DIR=/tmp/try_seed_ev_$prop python3 check.py $prop ${TRY_ARGS} > /tmp/try_seed_out_${prop}_$(basename $p .diff).txt 2>&1); rc=$?
+  echo "== $p exit=$rc"; [ $rc != 0 ] && ! grep -q "^VIOLATION" /tmp/try_seed_out_${prop}_$(basename $p .diff).txt && tail -3 /tmp/try_seed_out_${prop}_$(basename $p .diff).txt | cut -c1-300; grep -E "^VIOLATION|^violation|^KNOWN" /tmp/try_seed_out_${prop}_$(basename $p .diff).txt | cut -c1-240 | head -5
+  git -C $wt diff --quiet && echo "WARNING: the worktree was reverted during the run (concurrent user?)"
   git -C $wt checkout -q -- .
 done
